@@ -153,6 +153,7 @@ class Interp:
         self.sv = StateVec(self.rng, measure_oracle, max_qubits)
         self.externs = externs or {}
         self._region_cache: dict[Node, tuple] = {}
+        self._order_cache: dict = {}
         self.funcs: dict[str, Node] = {}
         for n in h.children(h.module_root):
             op = h[n].op
@@ -253,6 +254,18 @@ class Interp:
         frame = (local, env)
         for i, v in enumerate(inputs):
             local[(inp, i)] = v
+        # deterministic policies: the order depends only on the region -> compute once
+        if self.sched in ("min", "max"):
+            order = self._order_cache.get((parent, self.sched))
+            if order is None:
+                order = self._static_order(parent, body, deps)
+                self._order_cache[(parent, self.sched)] = order
+            for k in order:
+                args = self._gather(k, insrc[k], frame)
+                outs = self.exec_node(k, args, frame, targs)
+                for i, v in enumerate(outs):
+                    local[(k, i)] = v
+            return self._gather(out, insrc[out], frame)
         done: set = set()
         pending = list(body)
         while pending:
@@ -272,6 +285,32 @@ class Interp:
                 local[(k, i)] = v
             done.add(k)
         return self._gather(out, insrc[out], frame)
+
+    def _static_order(self, parent, body, deps):
+        import heapq
+
+        sign = 1 if self.sched == "min" else -1
+        indeg = {k: len(deps[k]) for k in body}
+        users: dict = {k: [] for k in body}
+        for k in body:
+            for d in deps[k]:
+                if d in users:
+                    users[d].append(k)
+                else:
+                    indeg[k] -= 1  # dependency outside the body (e.g. Input): already available
+        heap = [(sign * k.idx, k.idx, k) for k in body if indeg[k] == 0]
+        heapq.heapify(heap)
+        order = []
+        while heap:
+            _, _, k = heapq.heappop(heap)
+            order.append(k)
+            for u in users[k]:
+                indeg[u] -= 1
+                if indeg[u] == 0:
+                    heapq.heappush(heap, (sign * u.idx, u.idx, u))
+        if len(order) != len(body):
+            raise InterpError(f"cyclic dependencies in region {parent}")
+        return order
 
     def _lookup(self, src: OutPort, frame):
         key = (src.node, src.offset)
